@@ -45,6 +45,10 @@ func (i *Ignore) load(rootGoitPath string) error {
 	scanner := bufio.NewScanner(f)
 	for scanner.Scan() {
 		text := scanner.Text()
+		if text == "" {
+			// a blank line is no entry: as a pattern it would match every path
+			continue
+		}
 		// every character of an entry stands for itself, except '*' which matches anything:
 		// '*.c++' or 'lib(old)/' must not end up as a broken regular expression
 		var replacedText string
